@@ -590,7 +590,8 @@ pub fn m1_binop(op: &str, float: bool, a: &Val, b: &Val) -> Option<Val> {
 pub fn m1_unop(op: &str, float: bool, a: &Val) -> Option<Val> {
     Some(if float {
         let x = a.as_float();
-        match op { "-" => Val::F(-x), "sin" => Val::F(x.sin()), "cos" => Val::F(x.cos()), "sqrt" => Val::F(x.sqrt()), _ => return None }
+        match op { "-" => Val::F(-x), "sin" => Val::F(x.sin()), "cos" => Val::F(x.cos()), "sqrt" => Val::F(x.sqrt()),
+            "tan" => Val::F(x.tan()), "asin" => Val::F(x.asin()), "acos" => Val::F(x.acos()), "atan" => Val::F(x.atan()), _ => return None }
     } else {
         let x = a.as_int();
         match op { "-" => Val::I((-(x as i64)) as i32), "~" => Val::I(!x), "!" => Val::I((x == 0) as i32), _ => return None }
